@@ -362,9 +362,8 @@ def divRemInPlace (W : Nat) (lhs rhs : List Nat) (dtop : Nat) : Except PanicKind
 /-- `div::normalize(words)`: (normalised words, shift, top double word);
     `debug_assert_zero!` on the shift carry and the `new` assertion are error branches -/
 def normalize (W : Nat) (ws : List Nat) : Except PanicKind (List Nat × Nat × Nat) :=
-  match ws with
-  | [] => .error (assertErr "normalize: words.last().unwrap()")
-  | _ =>
+  if ws.length = 0 then .error (assertErr "normalize: words.last().unwrap()")
+  else
     let shift := lz W (ws.getD (ws.length - 1) 0)
     let (ws', c) := shlInPlace W ws shift
     if c ≠ 0 then .error (assertErr "normalize: debug_assert_zero!(shl carry)")
